@@ -421,17 +421,13 @@ Definition plan_wf (te : tyenv) (pl : plan) (b : bound) : bool :=
     bound_eqb b (bound_of (sd_of sl) (su_of sl) (te_errorT te) (bd_base0 b) sp)
   end.
 
-(* Two positional conditions under which plan_wf is a theorem (WfProofs.bind_plan_wf):
-   no included per-invocation provider other than a plain injector is placed before the invoke
-   function (always so without Reorder), and the values the init function returns have slots (trivially so without one). *)
+(* The positional condition under which plan_wf is a theorem (WfProofs.bind_plan_wf): no included
+   per-invocation provider other than a plain injector is placed before the invoke function
+   (always so without Reorder). *)
 Definition runs_after_invoke (pl : plan) : bool :=
   forallb (fun p => negb (p_include p && (group_eqb (p_group p) GRun || group_eqb (p_group p) GFinal)
                           && negb (class_eqb (p_class p) ClInjector)))
           (firstn (pl_invokeIndex pl) (pl_funcs pl)).
-Definition init_covered (pl : plan) : bool :=
-  forallb (fun p => negb (p_include p && class_eqb (p_class p) ClInit) ||
-                    forallb (fun t => is_some (sd_of (pl_slots pl) (remap (p_bypassR p) t))) (pflow p FBypass))
-          (pl_funcs pl).
 
 (* ---------- observation ---------- *)
 Record obs := mkObs {
@@ -441,7 +437,7 @@ Record obs := mkObs {
   o_results : list sres;
   o_log : list event;
   o_wf : bool;                                    (* plan_wf: hypotheses of the refinement theorem *)
-  o_sc : bool                                     (* the side conditions under which plan_wf is proved *)
+  o_sc : bool                                     (* the side condition under which plan_wf is proved *)
 }.
 
 Definition rmap_view (m : list (nat * nat)) (tys : list nat) (noT : nat) : list (nat * nat) :=
@@ -464,6 +460,6 @@ Definition model_run (c : bcase) : obs :=
                        [(p_pid p, rmap_view (p_downR p) (pflow p FIn) (te_noT te),
                                   rmap_view (p_upR p) (pflow p FRecv) (te_noT te),
                                   rmap_view (p_bypassR p) (pflow p FBypass) (te_noT te))] else []) (pl_funcs pl))
-          results (rev (sw_log (ss_w sw s))) (plan_wf te pl b) (runs_after_invoke pl && init_covered pl)
+          results (rev (sw_log (ss_w sw s))) (plan_wf te pl b) (runs_after_invoke pl)
   end.
 
